@@ -32,7 +32,7 @@ def rustc(c, cases):
     batch = [cs for cs in cases if cs["impl"].startswith("ok")]
     gen = [cs for cs in batch if cs.get("ref")]
     # repository inputs that lie inside the supported subset (the others, e.g. WSDLs with two bindings, are only used for the correspondence)
-    repo = [cs for cs in batch if not cs.get("ref") and (cs["meta"].get("source") or "").endswith(("hello.wsdl", "tempconverter.wsdl", "simple.xsd"))]
+    repo = [cs for cs in batch if not cs.get("ref") and ((cs["meta"].get("source") or "").endswith(("hello.wsdl", "tempconverter.wsdl", "simple.xsd")) or cs["meta"].get("corpus"))]
     # a stratified sample: the profiles take turns, so every profile reaches rustc in the quick tier too
     by_profile = {}
     for cs in gen:
